@@ -115,6 +115,7 @@ mod tests {
                     Step::Ok
                 },
                 key: &|s: &(u32, u32)| *s,
+                project: None,
                 label: &|a| format!("a{}", a),
             },
         );
